@@ -772,7 +772,7 @@ fn run_shard<E: Engine>(
         cases,
         failure_persistence: None,
         max_shrink_iters: if ctx.tier == Tier::Quick { 1500 } else { 4000 },
-        max_shrink_time: 0,
+        max_shrink_time: 180_000, // ms: failures that take seconds each (hangs caught by a timeout) must not shrink for hours
         max_global_rejects: 65536,
         verbose: 0,
         ..Config::default()
